@@ -158,6 +158,14 @@ def run(chk, S: Session):
     r6 = chk.rule("R-C05-6", "checkpoints closer than eps, equal ones included: the transition from the left bracket to the checkpoint has positive length on every path that interpolates "
                   "beyond the checkpoint (the preconditioner holds dt^-k)", floor=9)
     c06.zero_length_interpolation_rules(S, r6)
+    # "agree with after-the-fact off-grid marginals of a save-every-step run": offgrid_marginals rebuilds its transitions with solution.output_scale, so the
+    # scale a finished run reports must be the one its posterior was calibrated with (rule function of C04, called directly: C04 -> C03 -> this check)
+    from ..harness import Filtered
+    from . import c04
+
+    r7 = chk.rule("R-C05-7", "the output scale a finished run reports is the calibrated one -- the scale handed to finalize, broadcast over time (MLE), the per-step scales (dynamic), ones "
+                  "(uncalibrated): off-grid marginals are rebuilt with it (rule function of C04)", floor=4)
+    c04.output_rules(chk, S, Filtered(None, lambda c: False), Filtered(r7, lambda c: c.endswith("reported scale") or c.endswith("calibrated scale")))
     # an option passed to a constructor arrives in the attribute of its own name (the rules above read options through those attributes)
     from .ctor_wiring import ctor_wiring_rules
 
